@@ -304,6 +304,15 @@ def run(tier, seed):
             okx = False; why = "%s: %s" % (type(ex).__name__, ex)
         if not okx:
             bad.append(dict(failed="the harmonic model survives a save/load round trip unchanged (%s, values such as 5e-10 and 1e+16: %s)" % (ext, why), case=dict(ext=ext)))
+    E0a = np.array(0.125); x0a = np.array([0.25, -0.5]); H0a = np.array([[0.5, 0.0625], [0.0625, 0.75]]); ma = np.array([100.0, 200.0])
+    hma = HarmonicModel(x0a, E0a, H0a, ma); Xa = np.array([0.75, 0.5])
+    ea = [float(np.asarray(hma.update(Xa).hamiltonian()).ravel()[0]) for _ in range(4)]
+    prev_a = hma.update(Xa)
+    for _ in range(3): prev_a = hma.update(Xa + 0.1, electronics=prev_a)
+    ea.append(float(np.asarray(hma.update(Xa).hamiltonian()).ravel()[0]))
+    res.count("model/harmonic-caller-owned-arrays")
+    if len(set(ea)) != 1 or float(E0a) != 0.125 or float(np.asarray(hma.E0)) != 0.125 or not np.array_equal(x0a, [0.25, -0.5]) or not np.array_equal(H0a, [[0.5, 0.0625], [0.0625, 0.75]]):
+        bad.append(dict(failed="the harmonic model's energy at a position depends only on that position and computing never changes the model (E0 given as a numpy 0-d array: energies of repeated computations at one point %r, model.E0 now %r)" % (ea, float(np.asarray(hma.E0))), case=dict(E0="0-d array")))
     for ext in ("json", "yaml"):
         fn = os.path.join(tmproot, "again." + ext)
         ha = HarmonicModel([0.25, -0.5], 0.125, [[0.5, 0.0625], [0.0625, 0.75]], [100.0, 200.0]); ha.to_file(fn); la = HarmonicModel.from_file(fn); la2 = HarmonicModel.from_file(fn)
@@ -315,7 +324,7 @@ def run(tier, seed):
         if la is la2 or float(la.update(np.array([0.0, 0.0])).hamiltonian()[0]) != e_a:
             bad.append(dict(failed="two loads of one file give two independent models (computing on one changes the other)", case=dict(ext=ext)))
     # shin-metiu built with different electron masses / boxes / grids in one process: each instance's electronic Hamiltonian has its own finite-difference kinetic term
-    for kw_ in (dict(nel=32), dict(nel=32, m_el=2.0), dict(nel=32, box=30.0), dict(nel=64), dict(nel=32, L=12.0, m_el=0.5)):
+    for kw_ in (dict(nel=32), dict(nel=32, m_el=2.0), dict(nel=32, box=30.0), dict(nel=64), dict(nel=32, L=12.0, m_el=0.5), dict(nel=32, Rf=4.0), dict(nel=32, Rl=2.5, Rr=4.5)):
         try:
             sm = S.ShinMetiu(**kw_)
         except TypeError:
@@ -324,6 +333,10 @@ def run(tier, seed):
         rr_ = getattr(sm, "rr", None)
         if rr_ is None: break
         dr_ = float(rr_[1] - rr_[0]); want_off = -0.5 / (sm.m_el * dr_ * dr_)
+        e_own = np.linalg.eigvalsh(np.asarray(sm.V(np.array([0.3]))))[: sm.nstates()]
+        e_upd = np.diag(np.asarray(sm.update(np.array([0.3])).hamiltonian()))
+        if np.max(np.abs(e_own - e_upd)) > 1e-10:
+            bad.append(dict(failed="shin-metiu's energies at a position depend only on the position and on the instance's own parameters (options %r: update(x) gives %r, the eigenvalues of its own V(x) are %r)" % (kw_, e_upd.tolist(), e_own.tolist()), case=dict(options=kw_)))
         res.count("model/shin-metiu-kinetic-term")
         if abs(Hs[0, 1] - want_off) > 1e-12 * abs(want_off) or abs(Hs[n_ - 2, n_ - 1] - want_off) > 1e-12 * abs(want_off):
             bad.append(dict(failed="shin-metiu's electronic Hamiltonian depends only on the position and on the instance's own parameters (options %r: off-diagonal kinetic element %r, expected -1/(2 m dr^2) = %r)" % (kw_, float(Hs[0, 1]), want_off), case=dict(options=kw_)))
